@@ -266,6 +266,8 @@ func init() {
 			}
 			// the last proxy may poll under the session id of the first one, whose poll is still pending
 			sameSid := x.Cfg["dup"] == "1" && nP >= 2 && vs.Choose("samesid", 2) == 1
+			// the proxies arrive together, or 100 ms apart (all are waiting when the clients come at 1 s)
+			stagger := x.Cfg["stagger"] == "1" && vs.Choose("stagger", 2) == 1
 			w := newWorld()
 			st := &c03State{w: w}
 			x.User = st
@@ -274,7 +276,11 @@ func init() {
 				if i == 1 {
 					pt = "exotic" // an unrecognised proxy type: treated as unknown, still matched
 				}
-				pr := w.addProxy(p.nat, pt, p.load, 0, ansPrompt)
+				var arrive time.Duration
+				if stagger {
+					arrive = time.Duration(i) * 100 * time.Millisecond
+				}
+				pr := w.addProxy(p.nat, pt, p.load, arrive, ansPrompt)
 				pr.natWire = p.nat
 				if sameSid && i == nP-1 {
 					pr.sid = w.proxies[0].sid
@@ -297,7 +303,7 @@ func init() {
 			}
 			var sb strings.Builder
 			for _, p := range w.proxies {
-				fmt.Fprintf(&sb, "P%d(%s,%s,%d) ", p.idx, p.sid, p.natWire, p.clients)
+				fmt.Fprintf(&sb, "P%d(%s,%s,%d,arr=%v) ", p.idx, p.sid, p.natWire, p.clients, p.arrive)
 			}
 			for _, c := range w.clients {
 				fmt.Fprintf(&sb, "C%d(%q) ", c.idx, c.nat)
